@@ -296,3 +296,17 @@ M('C03', 'segment-transform-one-end', 'src/geom2/line2.rs', "            b: t.tr
 M('C03', 'distance-to3d-direction-unrotated', 'src/metrology.rs', "        let direction = iso * self.direction.to_3d();", "        let direction = self.direction.to_3d();", 'Distance2::to_3d')
 M('C03', 'sp-reversed-keeps-normal', SPF, "        Self::new(self.point, -self.normal)", "        Self::new(self.point, self.normal)", 'SurfacePoint::reversed')
 M('C03', 'mul-surface-point-identity', 'src/geom3.rs', "    fn mul(self, rhs: &SurfacePoint3) -> Self::Output {\n        rhs.transformed(self)", "    fn mul(self, rhs: &SurfacePoint3) -> Self::Output {\n        let _ = self;\n        *rhs", 'Mul<SurfacePoint>')
+
+# ---------------------------------------------------------------- C07
+P2CF = 'src/geom2/align2/points_to_curve.rs'
+P2MF = 'src/geom3/align3/points_to_mesh.rs'
+M('C07', 'set-params-no-refresh-3d', P2MF, "        self.params.set(x);\n        self.move_points();", "        self.params.set(x);", 'PointsToMesh::set_params')
+M('C07', 'set-params-refresh-first-2d', P2CF, "        self.params.set(x);\n        self.move_points();", "        self.move_points();\n        self.params.set(x);", 'PointsToCurve::set_params')
+M('C07', 'move-points-stale-closest-3d', P2MF, "        self.moved.clear();\n        self.closest.clear();", "        self.moved.clear();", 'PointsToMesh::move_points')
+M('C07', 'move-points-closest-of-unmoved', P2MF, "            self.closest.push(self.mesh.surf_closest_to(&m));", "            self.closest.push(self.mesh.surf_closest_to(p));", 'PointsToMesh::move_points:closest')
+M('C07', 'centre-not-mean', P2CF, "        let params = RcParams2::from_initial(initial, &mp);", "        let params = RcParams2::from_initial(initial, &points[0]);", 'PointsToCurve::new')
+M('C07', 'residual-mode-swapped', P2MF, "                DistMode::ToPoint => dist(p, &c.point),\n                DistMode::ToPlane => c.scalar_projection(p).abs(),", "                DistMode::ToPlane => dist(p, &c.point),\n                DistMode::ToPoint => c.scalar_projection(p).abs(),", 'PointsToMesh::residuals')
+M('C07', 'jacobian-mode-mismatch', P2MF, "                DistMode::ToPoint => point_point_jacobian(p, &c.point, &self.params),\n                DistMode::ToPlane => point_plane_jacobian(p, c, &self.params),", "                DistMode::ToPoint => point_plane_jacobian(p, c, &self.params),\n                DistMode::ToPlane => point_plane_jacobian(p, c, &self.params),", 'PointsToMesh::jacobian')
+M('C07', 'result-initial-transform', P2MF, "        Ok(Align3::new(result.current_transform(), residuals))", "        Ok(Align3::new(*initial, residuals))", 'points_to_mesh:result')
+M('C07', 'result-ignores-failure-2d', P2CF, "    if report.termination.was_successful() {\n        let residuals", "    if report.termination.was_successful() || true {\n        let residuals", 'points_to_curve:result')
+M('C07', 'residual-unpaired-2d', P2CF, "        for (i, (p, c)) in self.moved.iter().zip(self.closest.iter()).enumerate() {\n            res[i] = c.scalar_projection(p);", "        for (i, (p, c)) in self.moved.iter().zip(self.closest.iter().rev()).enumerate() {\n            res[i] = c.scalar_projection(p);", 'PointsToCurve::residuals')
